@@ -1,10 +1,11 @@
 SPEC = {
     "id": "C01",
     "level": "proof",
-    "theorem_modules": ["GluonModel.Theorems.C01"],
+    "theorem_modules": ["GluonModel.Theorems.C01", "GluonModel.Theorems.SysC01"],
     "correspondences": [
         {"dialect": "flush", "quick_n": 6000, "thorough_n": 200000, "judge": "judge-c01-flush"},
         {"dialect": "merge", "quick_n": 10000, "thorough_n": 400000, "judge": "judge-c01-merge"},
+        {"dialect": "sys", "quick_n": 250, "thorough_n": 5000, "judge": "judge-c01-sys"},
     ],
     "oracles": [
         {"name": "hist", "quick_args": ["-props", "C01", "-n", "25", "-steps", "40"],
@@ -18,6 +19,7 @@ SPEC = {
         "verif hooks internal/state/verif_export.go, internal/response/verif_export.go",
     ],
     "assumptions": [
+        "system level (Theorems/SysC01.lean): every announcement along a whole multi-session trace is explicable under the NAMED hypotheses NoOvertake (no session runs a mutating command or SELECT while an update for its mailbox is still in its update queue and the command hands responders to its own state) and NoSilent (no own .SILENT store; C01.handle_silent_fetch covers it at session level); without NoOvertake the statement is false of the code: own_append_overtakes_foreign (kernel-checked witness, reproduced on the real server by corpus/C01/sys-k1-held-exists-inserted-below.ops; known finding K-own-update-overtakes-foreign). System model GluonModel/Model/System.lean tied by the `sys` correspondence dialect (see C02); not in it: \\Recent, EXAMINE, IDLE, CLOSE, UID commands, message-set syntax",
         "value-based model: aliasing of Go maps/slices (a FlagSet shared by reference) is not modelled; the wire-level oracle covers it",
         "wire rendering of responses (String()) and the direct FETCH path of Mailbox.Fetch are covered by the wire-level oracle, not by theorem",
         "theorems handle_explicable_partial / flush_explicable_partial carry the named hypotheses ExistsAtEnd / AllAtEnd (an EXISTS from another session is added at the end), no CLOSE context, no own-.SILENT responder; the excluded cases are witnessed by handle_explicable_counterexample and flush_close_panic_witness",
